@@ -41,6 +41,9 @@ type pnSpec struct {
 	dc    *time.Time
 	tags  string
 	dates []time.Time
+	// presentations ("" or "@<zone>[f<k>]"): how the instants are spelled in the blobs
+	dcP    string
+	datesP []string
 	// camliContent (added by a later "cc" op): the claim date, the file's unixMtime, whether the file
 	// blob has reached the index
 	ccKey     string
@@ -52,13 +55,17 @@ type pnSpec struct {
 func (p *pnSpec) op() string {
 	dc := "none"
 	if p.dc != nil {
-		dc = Nanos(*p.dc)
+		dc = Nanos(*p.dc) + p.dcP
 	}
 	ds := "-"
 	if len(p.dates) > 0 {
 		var s []string
-		for _, d := range p.dates {
-			s = append(s, Nanos(d))
+		for i, d := range p.dates {
+			tok := Nanos(d)
+			if i < len(p.datesP) {
+				tok += p.datesP[i]
+			}
+			s = append(s, tok)
 		}
 		ds = strings.Join(s, ",")
 	}
@@ -148,6 +155,9 @@ func (g *gen) pool(kind string) []time.Time {
 	case "far":
 		return []time.Time{date("0001-01-01T00:00:00Z"), date("0001-01-01T00:00:00.000000001Z"), date("0800-06-01T12:00:00Z"),
 			date("1500-01-01T00:00:00Z"), date("3000-01-01T00:00:00.5Z"), date("9999-12-31T23:59:59.999999999Z"), base}
+	case "zonetie":
+		T := []time.Time{date("2015-06-01T12:00:00Z"), date("2015-06-01T23:30:00.5Z"), date("1969-12-31T23:59:59.25Z"), ns(0)}[rnd.Intn(4)]
+		return []time.Time{T, T.Add(time.Hour), T.Add(-time.Hour)}
 	case "distinct":
 		var ts []time.Time
 		for i := 0; i < 8; i++ {
@@ -164,16 +174,78 @@ func (g *gen) pool(kind string) []time.Time {
 	panic(kind)
 }
 
-var poolKindsInRange = []string{"one", "modern", "subsec", "pre1970", "epoch", "edge64in", "mixed", "distinct"}
+var poolKindsInRange = []string{"one", "modern", "subsec", "pre1970", "epoch", "edge64in", "mixed", "distinct", "zonetie"}
 var poolKindsOut = []string{"edge64out", "far"}
 
 type wspec struct {
 	kind string
 	pns  []*pnSpec
+	zp   int // chance (%) that an instant of this world is spelled with a zone offset / fractional zeros
+}
+
+var presZones = []string{"Z", "0", "-480", "480", "60", "-60", "330", "-210", "345", "840", "-720", "1"}
+
+// present picks a spelling for the instant t: "" (UTC, "Z", minimal fraction) or "@<zone>[f<k>]" – another
+// UTC offset, "+00:00", forced fractional zeros.  Equal instants stay equal whatever the spelling.
+func (g *gen) present(t time.Time, chance int) string {
+	rnd := g.r.R
+	if !rnd.Chance(chance) {
+		return ""
+	}
+	p := "@" + presZones[rnd.Intn(len(presZones))]
+	if rnd.Chance(40) {
+		p += "f" + []string{"0", "1", "3", "6", "9"}[rnd.Intn(5)]
+	}
+	if _, _, _, ok := parseTimeTok(Nanos(t) + p); !ok {
+		return "" // the local year would leave 0..9999
+	}
+	g.r.Hit("zone:" + map[bool]string{true: "utc-spelled-differently", false: "offset"}[strings.HasPrefix(p, "@Z") || strings.HasPrefix(p, "@0")])
+	return p
+}
+
+// zoneTieWorld: ONE instant shared by a group of 2..20 permanodes (dateCreated, and all claim dates at one
+// other instant), spelled with different zone offsets and fractional zeros, with 0..3 newer and 0..3 older
+// permanodes around the group so that page boundaries fall before, inside and after it.
+func (g *gen) zoneTieWorld(w *world) *wspec {
+	rnd := g.r.R
+	ws := &wspec{kind: "zonetie", zp: 85}
+	pool := g.pool("zonetie")
+	T, M := pool[0], time.Unix(1322443956, 0).UTC()
+	gsz, pre, post := 2+rnd.Intn(19), rnd.Intn(4), rnd.Intn(4)
+	g.r.Hit(fmt.Sprintf("zone:tie-group-size-%s", map[bool]string{true: "2-5", false: "6-20"}[gsz <= 5]))
+	for i := 0; i < pre+gsz+post; i++ {
+		g.keyN++
+		p := &pnSpec{key: fmt.Sprintf("k%dx%d", g.r.Res.Seed, g.keyN)}
+		p.ref = w.RefOfKey(p.key)
+		p.tags = []string{"a", "ay", "aby", "y", "-", "ab"}[rnd.Intn(6)]
+		d := T
+		switch {
+		case i < pre:
+			d = pool[1]
+		case i >= pre+gsz:
+			d = pool[2]
+		}
+		p.dc = &d
+		p.dcP = g.present(d, ws.zp)
+		for j := 0; j < 1+len(strings.Trim(p.tags, "-")); j++ {
+			p.dates = append(p.dates, M)
+			p.datesP = append(p.datesP, g.present(M, ws.zp))
+		}
+		ws.pns = append(ws.pns, p)
+	}
+	// declaration order is not group order
+	for i := len(ws.pns) - 1; i > 0; i-- {
+		j := rnd.Intn(i + 1)
+		ws.pns[i], ws.pns[j] = ws.pns[j], ws.pns[i]
+	}
+	return ws
 }
 
 func (g *gen) makeWorld(kind string, n int, w *world) *wspec {
 	rnd := g.r.R
+	if kind == "zonetie" {
+		return g.zoneTieWorld(w)
+	}
 	pool := g.pool(kind)
 	if kind != "distinct" && rnd.Chance(30) && len(pool) > 2 { // shrink the pool: even more ties
 		k := 1 + rnd.Intn(2)
@@ -181,7 +253,7 @@ func (g *gen) makeWorld(kind string, n int, w *world) *wspec {
 		pool = append([]time.Time{rnd2}, pool[:k]...)
 	}
 	pick := func() time.Time { return pool[rnd.Intn(len(pool))] }
-	ws := &wspec{kind: kind}
+	ws := &wspec{kind: kind, zp: []int{0, 35, 70}[rnd.Intn(3)]}
 	for i := 0; i < n; i++ {
 		g.keyN++
 		p := &pnSpec{key: fmt.Sprintf("k%dx%d", g.r.Res.Seed, g.keyN)}
@@ -214,9 +286,13 @@ func (g *gen) makeWorld(kind string, n int, w *world) *wspec {
 				}
 			}
 			p.dates = append(p.dates, d)
+			p.datesP = append(p.datesP, g.present(d, ws.zp))
+		}
+		if p.dc != nil {
+			p.dcP = g.present(*p.dc, ws.zp)
 		}
 		if kind == "distinct" && i == n-1 && rnd.Chance(35) { // one permanode without any time: CreatedAsc must fail
-			p.dc, p.tags, p.dates = nil, "-", nil
+			p.dc, p.tags, p.dates, p.dcP, p.datesP = nil, "-", nil, "", nil
 		}
 		ws.pns = append(ws.pns, p)
 	}
@@ -612,10 +688,10 @@ func (g *gen) runWorld(kind string, n int, limits []int, aroundLimits []int) {
 					ft = ft.Add(1)
 				}
 				p.ft = &ft
-				fts = Nanos(ft)
+				fts = Nanos(ft) + g.present(ft, ws.zp)
 			}
 			p.dates = append(p.dates, p.ccDate)
-			if !g.expectTimes(fmt.Sprintf("cc %d %s %s %s", i, p.ccKey, Nanos(p.ccDate), fts), p) {
+			if !g.expectTimes(fmt.Sprintf("cc %d %s %s %s", i, p.ccKey, Nanos(p.ccDate)+g.present(p.ccDate, ws.zp), fts), p) {
 				return
 			}
 			if rnd.Chance(40) {
@@ -637,7 +713,13 @@ func (g *gen) runWorld(kind string, n int, limits []int, aroundLimits []int) {
 		p := ws.pns[rnd.Intn(len(ws.pns))].ref.String()
 		return []string{"p" + hk.Hex([]byte(p[:len("sha224-")+1])), "p" + hk.Hex([]byte(p))}
 	}
-	round(append([]string{"all", "a", "b", "t", "n", "y", "z"}, prefixConss()...), limits, aroundLimits)
+	if kind == "zonetie" {
+		// page boundaries before, inside and after the tie group, for both continuable sorts, plus Around
+		limits, aroundLimits = []int{1, 2, 3, 5, 7}, []int{1, 2, 3, 5}
+		round([]string{"all", "a", "y"}, limits, aroundLimits)
+	} else {
+		round(append([]string{"all", "a", "b", "t", "n", "y", "z"}, prefixConss()...), limits, aroundLimits)
+	}
 	g.unsortedSorts(ws, limits, aroundLimits)
 	if len(late) > 0 {
 		before := join(ws.expectedFull("c", "all"))
@@ -904,7 +986,7 @@ func mix64(z uint64) uint64 {
 // Run is the generator + oracle of C09.
 func Run(r *hk.Run) {
 	g := &gen{r: r, ex: nil}
-	r.Res.Rule = "one case = one world (real index+corpus) of n planned permanodes whose dateCreated / claim dates are drawn from a small pool of instants (kinds: one, modern, subsec, pre1970, epoch, edge64in, mixed; and outside int64 nanoseconds: edge64out, far); per world, sort (created/lastmod) and constraint (all/tag a/tag b): the limit-free query is the oracle list, every limit is followed page by page, every permanode (and one foreign ref) is used as Around pivot; constraints: Permanode{}, tag=a, tag=b, CamliType:permanode, and(tag a, tag b), camliNodeType=foo, and(camliNodeType=foo, tag a), and(Permanode{}, BlobRefPrefix one-digit / full ref) – every branch of pickCandidateSource an only-permanode constraint can reach; about half of the permanodes get a camliContent file carrying a time, whose schema blob reaches the index before the first query or LATE (after the claim and after a full round of queries), followed by another round; then permanodes are added and a last round runs; in about a third of the (sort, constraint) runs the requests are repeated by a caller that keeps ONE Go *SearchQuery/*Constraint value (paging run, restart from page 1 with another limit, Around, unpaged) – the value must come back unchanged and the answers must equal those of fresh values; the same Around pivots and limits on the sorts with an unsorted candidate source (BlobRefAsc always, CreatedAsc in worlds with pairwise distinct creation times). distinct = distinct (kind of query, sort, constraint, limit, tie/sign shape of the ordered list[, pivot position]); non-trivial = the full list is longer than the limit (at least two pages / a truncated window)"
+	r.Res.Rule = "one case = one world (real index+corpus) of n planned permanodes whose dateCreated / claim dates are drawn from a small pool of instants (kinds: one, modern, subsec, pre1970, epoch, edge64in, mixed, distinct, zonetie = one instant shared by 2..20 permanodes with 0..3 newer/older ones around; and outside int64 nanoseconds: edge64out, far); a tie is an equal INSTANT, not an equal text: in two thirds of the worlds (and 85 % of the zonetie instants) dateCreated values, claim dates and file times are spelled with varying UTC offsets (Z, +00:00, -08:00, +05:45, +14:00 …) and forced fractional zeros (12:00:00.000Z); per world, sort (created/lastmod) and constraint (all/tag a/tag b): the limit-free query is the oracle list, every limit is followed page by page, every permanode (and one foreign ref) is used as Around pivot; constraints: Permanode{}, tag=a, tag=b, CamliType:permanode, and(tag a, tag b), camliNodeType=foo, and(camliNodeType=foo, tag a), and(Permanode{}, BlobRefPrefix one-digit / full ref) – every branch of pickCandidateSource an only-permanode constraint can reach; about half of the permanodes get a camliContent file carrying a time, whose schema blob reaches the index before the first query or LATE (after the claim and after a full round of queries), followed by another round; then permanodes are added and a last round runs; in about a third of the (sort, constraint) runs the requests are repeated by a caller that keeps ONE Go *SearchQuery/*Constraint value (paging run, restart from page 1 with another limit, Around, unpaged) – the value must come back unchanged and the answers must equal those of fresh values; the same Around pivots and limits on the sorts with an unsorted candidate source (BlobRefAsc always, CreatedAsc in worlds with pairwise distinct creation times). distinct = distinct (kind of query, sort, constraint, limit, tie/sign shape of the ordered list[, pivot position]); non-trivial = the full list is longer than the limit (at least two pages / a truncated window)"
 	// hk.NewRand(seed) makes consecutive seeds offsets (by one draw) of the same stream, and a generator
 	// with data-dependent draw counts re-synchronises them: decorrelate the seeds first
 	r.R = hk.NewRand(mix64(r.Res.Seed))
